@@ -221,6 +221,84 @@ pub fn run(seed: u64, thorough: bool, out_dir: &std::path::Path, scratch: &std::
             }
         }
     }
+    // ---- stream 2: snapshots taken by a reader thread while blocks are being processed
+    let n_conc = if thorough { 60 } else { 8 };
+    for ci in 0..n_conc {
+        let cfg = ChainCfg { window: *rng.pick(&[(1u64, 2u64), (2, 4)]), genesis_epoch_length: *rng.pick(&[5u64, 1000]), ..Default::default() };
+        let mut h = Hist::new(cfg.clone(), scratch.join(format!("c{ci}")), false);
+        let mut noop = |_: &Hist, _: &Change| {};
+        let target = rng.range(14, if thorough { 40 } else { 24 });
+        let mut guard = 0;
+        while (h.blocks.len() as u64) < target && guard < 80 {
+            guard += 1;
+            let tip = h.node().tip().number();
+            let r = if tip >= 2 && rng.chance(1, 3) {
+                let back = rng.range(1, 5);
+                let from = rng.range(tip.saturating_sub(back), tip - 1);
+                let extra = rng.range(1, 2);
+                h.fork(&mut rng, from, tip - from + extra, &mut noop)
+            } else { h.extend(&mut rng, &mut noop) };
+            if r.is_err() { break; }
+        }
+        let blocks = h.blocks.clone();
+        let block_id = h.block_id.clone();
+        let tx_id = h.tx_id.clone();
+        let consensus = h.consensus.clone();
+        let jhist = h.jops.clone();
+        h.finish();
+        let r = std::panic::catch_unwind(std::panic::AssertUnwindSafe(|| {
+            let node = Node::temp(&consensus);
+            let shared = node.shared.clone();
+            let stop = std::sync::Arc::new(std::sync::atomic::AtomicBool::new(false));
+            let stop2 = stop.clone();
+            let (bid, tid) = (block_id.clone(), tx_id.clone());
+            let reader = std::thread::spawn(move || {
+                let mut checked = 0u64;
+                let mut bad: Vec<String> = vec![];
+                let mut tips = BTreeSet::new();
+                while !stop2.load(std::sync::atomic::Ordering::Relaxed) {
+                    let snap = shared.snapshot();
+                    let got = dump_store(snap.as_ref(), &bid, &tid);
+                    let tip = snap.tip_number();
+                    let main: Option<Vec<BlockView>> = (0..=tip).map(|n| snap.get_block_hash(n).and_then(|hh| snap.get_block(&hh))).collect();
+                    match main {
+                        None => bad.push(format!("snapshot with tip {tip}: a main-chain block is not readable through the snapshot")),
+                        Some(main) => {
+                            if main.last().map(|b| b.hash()) != Some(snap.tip_hash()) { bad.push(format!("snapshot with tip {tip}: number->hash index does not end at the snapshot's tip")); }
+                            let want = replay(&main, &bid, &tid);
+                            if let Some(msg) = diff_dumps(&got, &want) { bad.push(format!("snapshot with tip {tip}: {msg}")); }
+                        }
+                    }
+                    tips.insert(tip);
+                    checked += 1;
+                }
+                (checked, bad, tips.len())
+            });
+            // deliver in bursts
+            let mut rxs = vec![];
+            for (i, b) in blocks.iter().enumerate() {
+                rxs.push(node.deliver(b));
+                if i % 5 == 4 { std::thread::sleep(std::time::Duration::from_millis(2)); }
+            }
+            for rx in rxs { let _ = rx.recv_timeout(std::time::Duration::from_secs(20)); }
+            stop.store(true, std::sync::atomic::Ordering::Relaxed);
+            let res = reader.join().unwrap();
+            node.stop();
+            res
+        }));
+        out.evaluations += 1;
+        out.distinct.insert(format!("conc{:?}", jhist));
+        match r {
+            Err(_) => out.viol.push(json!({"what": "panic while taking snapshots during concurrent block processing", "detail": {"history": jhist}})),
+            Ok((checked, bad, ntips)) => {
+                *out.stats.entry("concurrent_snapshots_checked".into()).or_default() += checked;
+                *out.stats.entry("concurrent_distinct_tips_seen".into()).or_default() += ntips as u64;
+                if let Some(m) = bad.first() {
+                    out.viol.push(json!({"what": format!("a snapshot taken while blocks were being processed is not a replay of its own main chain: {m}"), "detail": {"history": jhist, "bad_snapshots": bad.len(), "checked": checked}}));
+                }
+            }
+        }
+    }
     for (i, cf) in files.iter().enumerate() {
         cf.write().unwrap();
         std::fs::write(out_dir.join(format!("cases_{:02}.json", i)), serde_json::to_string(&descs[i]).unwrap()).unwrap();
